@@ -3,6 +3,8 @@
 package pickfirst
 
 import (
+	"time"
+
 	"google.golang.org/grpc/balancer"
 	"google.golang.org/grpc/balancer/pickfirst/internal"
 	"google.golang.org/grpc/resolver"
@@ -22,6 +24,17 @@ func VerifSetRandShuffle(f func(n int, swap func(i, j int))) func() {
 	internal.RandShuffle = f
 	return func() { internal.RandShuffle = old }
 }
+
+// VerifSetTimeAfterFunc replaces internal.TimeAfterFunc (the happy-eyeballs timer) so that the harness decides when
+// a timer fires — including a timer that fired just before it was stopped and whose callback runs afterwards.
+func VerifSetTimeAfterFunc(f func(time.Duration, func()) func()) func() {
+	old := internal.TimeAfterFunc
+	internal.TimeAfterFunc = f
+	return func() { internal.TimeAfterFunc = old }
+}
+
+// VerifConnectionDelay is the delay the timer is armed with.
+const VerifConnectionDelay = connectionDelayInterval
 
 // VerifPickerInfo describes a picker handed out by pick_first without calling Pick (the idle picker's
 // Pick has a side effect): kind "picker" (result/err fields) or "idle".
